@@ -92,6 +92,31 @@ fn observe_u8<'a>(p: impl Parser<'a, &'a [u8], &'a [u8], Ex>, input: &'a [u8]) -
     }
 }
 
+/// the same over a `&Graphemes` input: tokens are extended grapheme clusters; indices are reported in clusters, followed by
+/// `g<n>` = the number of clusters of the whole input (the check knows what to expect only for inputs it can segment itself)
+fn observe_gr<'a>(
+    p: impl Parser<'a, &'a text::Graphemes, &'a text::Graphemes, Ex>,
+    input: &'a text::Graphemes,
+) -> String {
+    let full = p.then(any().repeated().to_slice());
+    let mut insp = CountInsp::default();
+    let whole = input.as_str();
+    let n = input.iter().count();
+    match full.parse_with_state(input, &mut insp).into_result() {
+        Ok((s, rest)) => {
+            let idx = |ptr: *const u8| text::Graphemes::new(&whole[..(ptr as usize - whole.as_ptr() as usize)]).iter().count();
+            let st = idx(s.as_str().as_ptr());
+            let en = st + s.iter().count();
+            let r = idx(rest.as_str().as_ptr());
+            format!("ok {st} {en} {r} i{} g{n}", insp.0)
+        }
+        Err(_) => format!("none g{n}"),
+    }
+}
+
+/// patterns of the `regex` family (index = first parameter); the check holds the same table
+const PATTERNS: [&str; 10] = ["[0-9]+", "[a-zA-Z_][a-zA-Z0-9_]*", "a|ab", "(ab)*", "a*", "ab|a", "[^ ]+", ".", "é+", "a?b"];
+
 macro_rules! dispatch {
     ($pname:expr, $params:expr, $obs:ident, $inp:expr, $kw:expr, $newline:expr) => {{
         let r = $params.get(0).copied().unwrap_or(10);
@@ -107,6 +132,7 @@ macro_rules! dispatch {
             "pad_int" => $obs(text::int(r).padded(), $inp),
             "pad_aident" => $obs(text::ascii::ident().padded(), $inp),
             "newline" => $newline,
+            "regex" => $obs(chumsky::regex::regex(PATTERNS[r as usize % PATTERNS.len()]), $inp),
             other => format!("ERR unknown-parser-{other}"),
         }
     }};
@@ -141,6 +167,19 @@ pub fn main() {
                     let kw: &str = &kw;
                     let s: &str = &s;
                     dispatch!(pname, params, observe_str, s, kw, observe_str(text::newline().to_slice(), s))
+                } else if inst == "gr" {
+                    let s: String = ts.iter().map(|&t| char::from_u32(t).unwrap_or('\u{fffd}')).collect();
+                    let g: &text::Graphemes = text::Graphemes::new(&s);
+                    match pname {
+                        "ws" => observe_gr(text::whitespace().to_slice(), g),
+                        "iws" => observe_gr(text::inline_whitespace().to_slice(), g),
+                        "digits" => observe_gr(text::digits(params.first().copied().unwrap_or(10)).to_slice(), g),
+                        "int" => observe_gr(text::int(params.first().copied().unwrap_or(10)), g),
+                        "uident" => observe_gr(text::unicode::ident(), g),
+                        "pad_int" => observe_gr(text::int(params.first().copied().unwrap_or(10)).padded(), g),
+                        "newline" => observe_gr(text::newline().to_slice(), g),
+                        other => format!("ERR unknown-parser-{other}"),
+                    }
                 } else {
                     let s: Vec<u8> = ts.iter().map(|&t| t as u8).collect();
                     let kw: Vec<u8> = params.iter().map(|&t| t as u8).collect();
